@@ -295,6 +295,49 @@ def real__rt_keys(ki, kj, ni, k0, k1, i, f, s, sel):
     return _real(_keys_obj(ki, kj, ni, k0, k1, i, f, s, sel))
 
 
+def _hist_obj(variant, i, s):
+    """graph A (variant 0) and derived graphs B that drop / shorten / zero parts of it"""
+    o = Obj()
+    o.label = s
+    o.n = i
+    o.weights = sc.np.array([[1.0, 2.0], [3.0, 4.0]]) if variant != 3 else sc.np.zeros((2, 2))
+    o.history = ["a", 1, "b", 2.5] if variant != 2 else ["a", 1]
+    o.cfg = {"k": [1, 2, 3], "arr": sc.np.arange(3)} if variant != 4 else {"k": [1, 2, 3]}
+    if variant not in (1, 5):
+        o.scratch = sc.np.arange(5)
+    if variant != 5:
+        o.child = sc._sub()
+    return o
+
+
+def overwrite_history(va: int, vb: int, store: int, i: int, s: str) -> bool:
+    """save graph A, then save a different graph B over the same target with mode='o': the target then
+    loads to exactly B (nothing of A survives), for both stores
+
+    pre: 0 <= va <= 5 and 0 <= vb <= 5 and 0 <= store <= 1 and len(s) <= 2
+    post: __return__ == True
+    """
+    return _overwrite(sc.stub_two_saves, va, vb, store, i, s)
+
+
+def _overwrite(driver, va, vb, store, i, s):
+    va, vb = _pickv(va), _pickv(vb)
+    a, b = _hist_obj(va, i, s), _hist_obj(vb, i + 1, s)
+    got = driver(a, b, "zip" if store == 0 else "dir")
+    return type(got) is type(b) and obj_eq(b, got)
+
+
+def _pickv(v):
+    for k in range(6):
+        if v == k:
+            return k
+    raise IndexError(v)
+
+
+def real__overwrite_history(va, vb, store, i, s):
+    return _overwrite(sc.real_two_saves, va, vb, store, i, s)
+
+
 # ----------------------------------------------------------------------------- replay on the real stores
 def _real(o):
     rr = sc.real_roundtrip(o)
